@@ -15,18 +15,19 @@ OPTSETS_THOROUGH = OPTSETS_QUICK + [
     ['-O3', '--collapsed-range-length', '1', '-fzero-len-input-support', '-fuse-packed-enums']]
 
 
-def sweeps_for(chk, progs, rng, nctx_small, nctx_big, root):
+def sweeps_for(chk, progs, rng, nctx_small, nctx_big, root, use_san=False):
     cases = []
     nsweeps = 0
     dropped_total = 0
     for p in progs:
-        if not p.bin:
+        binary = p.bin_san if use_san else p.bin
+        if not binary:
             continue
         nst = len(p.m['states'])
         k = nctx_small if nst <= 60 else nctx_big
         ctxs = steps.make_contexts(p.m, rng, k)
         script, plan = steps.sweep_script(p.m, ctxs)
-        evs, rc, err = cbuild.run_driver(p.bin, script, timeout=120)
+        evs, rc, err = cbuild.run_driver(binary, script, timeout=120)
         sw, dropped, n = steps.conv_sweeps(evs, plan, p.m)
         dropped_total += dropped
         if rc is None:
